@@ -3,7 +3,7 @@
 # Uses the scratch worktree /tmp/seed/<ID>/repo; writes /tmp/seed/<ID>/out/<mN>/confirm.json
 ID=$1; M=$2; RX=${3:-.}
 W=/tmp/seed/$ID; R=$W/repo; O=$W/out/$M; B=$W/cb_$M
-cd $R && git checkout -q -- . && git apply --check $O/patch.diff || { echo "patch does not apply"; exit 2; }
+cd $R && git checkout -q -- . && git checkout -q --detach main && git apply --check $O/patch.diff || { echo "patch does not apply"; exit 2; }
 run_demo() { # $1 = build dir.  Conventions seen: run_demo.sh <build> [repo]; build_demo.sh that also runs; build_demo.sh + exe
   local rc
   if [ -f $O/run_demo.sh ]; then (cd $O && timeout 2400 sh ./run_demo.sh $1 $R > $O/demo_run.log 2>&1); return $?; fi
@@ -11,13 +11,14 @@ run_demo() { # $1 = build dir.  Conventions seen: run_demo.sh <build> [repo]; bu
     if grep -q "^exec \|runs it\|and run" $O/build_demo.sh; then
       (cd $O && timeout 2400 sh ./build_demo.sh $1 > $O/demo_run.log 2>&1); return $?
     fi
-    (cd $O && bash ./build_demo.sh $1 $R > $O/demo_build.log 2>&1)
+    (cd $O && bash ./build_demo.sh $1 > $O/demo_build.log 2>&1) || (cd $O && bash ./build_demo.sh $1 $R > $O/demo_build.log 2>&1)
   fi
-  local exe=$(find $O -maxdepth 1 -type f -executable ! -name '*.sh' -newer $O/patch.diff | head -1)
+  local exe=$(find $O $1 -maxdepth 1 -type f -executable -name 'demo*' ! -name '*.sh' -newer $O/patch.diff | head -1)
+  if [ -z "$exe" ]; then exe=$(find $O -maxdepth 1 -type f -executable ! -name '*.sh' -newer $O/patch.diff | head -1); fi
   if [ -z "$exe" ]; then echo "no demo exe"; return 99; fi
   (cd $O && timeout 2400 $exe > $O/demo_run.log 2>&1); return $?
 }
-build() { cmake -G Ninja -S $R -B $B -DCMAKE_BUILD_TYPE=Release > $B.log 2>&1 && cmake --build $B -j 8 >> $B.log 2>&1; }
+build() { cmake -G Ninja -S $R -B $B -DCMAKE_BUILD_TYPE=Release -DSQISIGN_BUILD_TYPE=${BUILD_TYPE:-ref} > $B.log 2>&1 && cmake --build $B -j 8 >> $B.log 2>&1; }
 mkdir -p $B
 git apply $O/patch.diff && build || { echo "build with change failed"; git checkout -q -- .; exit 3; }
 run_demo $B; WITH=$?
